@@ -222,7 +222,9 @@ package netty
 
 // Type invariant of handlerContext: the six cast fields agree with the handler's dynamic type.
 // Established by the only constructor (newHandlerContext#post:casts), and the fields are never
-// stored to elsewhere (scans below), so it holds for every context at all times.
+// stored to elsewhere (scans below), so it holds for every context at all times. Every property
+// about events reaching handlers (C05 active/inactive, C07 exceptions, C20 idle events) rests on it.
+//@ property C03 C05 C07 C20
 //@ func newHandlerContext
 //@   params p handler prev next
 //@   ensures fresh: result != nil && fresh(result)
@@ -698,7 +700,7 @@ package netty
 
 // ---------------------------------------------------------------------------
 // low-level write entry points
-//@ property C01 C09 C11 C18
+//@ property C01 C09 C11 C18 C02 C06
 //@ func (*channel).write1
 //@   params c p clone
 //@   results n err
@@ -715,7 +717,7 @@ package netty
 //@   ensures sync_flush_iff_written: implies(old(c.writeQueue) == nil && count("net.Conn.Write") == 1, (count("Transport.Flush") == 1) == (evres(first("net.Conn.Write"), 1) == nil) && implies(count("Transport.Flush") == 1, first("Transport.Flush") > first("net.Conn.Write") && first("Transport.Flush") < last("unlock c.writeLock")))
 //@   ensures sync_result: implies(old(c.writeQueue) == nil && count("net.Conn.Write") == 1 && count("Transport.Flush") == 0, err == evres(first("net.Conn.Write"), 1)) && implies(count("Transport.Flush") == 1, err == evres(first("Transport.Flush"), 0))
 //@   ensures closed_rejects@C11: implies(old(closedState(c)), err != nil && count("send c.writeQueue") == 0)
-//@ property C01 C09 C11 C14 C18
+//@ property C01 C09 C11 C14 C18 C02 C06
 //@ func (*channel).Writev
 //@   params c p
 //@   results n err
@@ -730,7 +732,7 @@ package netty
 //@   ensures sync_flush_iff_written: implies(old(c.writeQueue) == nil && count("BuffersWriter.Writev") == 1, (count("Transport.Flush") == 1) == (evres(first("BuffersWriter.Writev"), 1) == nil) && implies(count("Transport.Flush") == 1, first("Transport.Flush") > first("BuffersWriter.Writev") && first("Transport.Flush") < last("unlock c.writeLock")))
 //@   ensures sync_result: implies(old(c.writeQueue) == nil && count("BuffersWriter.Writev") == 1 && count("Transport.Flush") == 0, err == evres(first("BuffersWriter.Writev"), 1)) && implies(count("Transport.Flush") == 1, err == evres(first("Transport.Flush"), 0))
 //@   ensures closed_rejects@C11: implies(old(closedState(c)), err != nil && count("send c.writeQueue") == 0)
-//@ property C01 C09 C11 C18
+//@ property C01 C09 C11 C18 C02 C06
 //@ func (*channel).CtxWrite1
 //@   params c ctx p
 //@   results n err
@@ -747,7 +749,7 @@ package netty
 //@   ensures sync_flush_iff_written: implies(old(c.writeQueue) == nil && count("net.Conn.Write") == 1, (count("Transport.Flush") == 1) == (evres(first("net.Conn.Write"), 1) == nil) && implies(count("Transport.Flush") == 1, first("Transport.Flush") > first("net.Conn.Write") && first("Transport.Flush") < last("unlock c.writeLock")))
 //@   ensures sync_result: implies(old(c.writeQueue) == nil && count("net.Conn.Write") == 1 && count("Transport.Flush") == 0, err == evres(first("net.Conn.Write"), 1)) && implies(count("Transport.Flush") == 1, err == evres(first("Transport.Flush"), 0))
 //@   ensures closed_rejects@C11: implies(old(closedState(c)), err != nil && count("send c.writeQueue") == 0)
-//@ property C01 C09 C11 C18
+//@ property C01 C09 C11 C18 C02 C06
 //@ func (*channel).CtxWritev
 //@   params c ctx pv
 //@   results n err
@@ -764,17 +766,17 @@ package netty
 //@   ensures sync_flush_iff_written: implies(old(c.writeQueue) == nil && count("BuffersWriter.Writev") == 1, (count("Transport.Flush") == 1) == (evres(first("BuffersWriter.Writev"), 1) == nil) && implies(count("Transport.Flush") == 1, first("Transport.Flush") > first("BuffersWriter.Writev") && first("Transport.Flush") < last("unlock c.writeLock")))
 //@   ensures sync_result: implies(old(c.writeQueue) == nil && count("BuffersWriter.Writev") == 1 && count("Transport.Flush") == 0, err == evres(first("BuffersWriter.Writev"), 1)) && implies(count("Transport.Flush") == 1, err == evres(first("Transport.Flush"), 0))
 //@   ensures closed_rejects@C11: implies(old(closedState(c)), err != nil && count("send c.writeQueue") == 0)
-//@ property C01 C09 C11 C18 C14
+//@ property C01 C09 C11 C18 C14 C02 C06
 //@ func (*channel).Write1
 //@   params c p
 //@   results n err
 //@   inline
-//@ property C01 C14
+//@ property C01 C14 C09 C11
 //@ func (*channel).Writer
 //@   params c
 //@   requires c != nil
 //@   ensures is(result, channelWriter) && as(result, channelWriter).channel == c
-//@ property C01 C14
+//@ property C01 C14 C09 C11
 //@ func (channelWriter).Write
 //@   params c p
 //@   results n err
@@ -862,7 +864,7 @@ package netty
 
 // ReadFrom streams a reader in 1024-byte chunks, each handed to write1 exactly once, in order (C14).
 // (Each chunk is a separate low-level write: that is the known C09 finding for reader-typed messages.)
-//@ property C01 C02 C04 C08 C09 C10 C11 C12 C14
+//@ property C01 C02 C04 C08 C09 C10 C11 C12 C14 C06 C18
 //@ func (*channel).ReadFrom
 //@   params c r
 //@   results n err
@@ -878,8 +880,10 @@ package netty
 //@   loop 0 invariant each_chunk_written_once: implies(nemitted() > 0, evis(0, "pbytes.Get") && count("netty.channel.write1") <= 1 && implies(count("netty.channel.write1") == 1, evarg(last("netty.channel.write1"), 2) == false))
 //@   loop 0 invariant every_chunk_through_the_checked_entry@C11_C14: implies(nemitted() > 0, (count("netty.channel.write1") == 1) == (n > atheader(n)) && count("send c.writeQueue") == 0 && count("net.Conn.Write") == 0 && count("Transport.Flush") == 0)
 //@   loop 0 invariant single_write@C09: count("netty.channel.write1") == 0
+//@   loop 0 invariant queue_full_is_reported_not_waited_for@C18: count("time.Sleep") == 0
 //@   loop 0 invariant chunk_is_what_was_read: implies(count("netty.channel.write1") == 1, at(last("netty.channel.write1"), len(evarg(last("netty.channel.write1"), 1)) >= 1 && seqeq(content(evarg(last("netty.channel.write1"), 1)), subseq(rdata(r), rpos(r) - len(evarg(last("netty.channel.write1"), 1)), len(evarg(last("netty.channel.write1"), 1)))) && rpos(r) - len(evarg(last("netty.channel.write1"), 1)) - old(rpos(r)) == n - len(evarg(last("netty.channel.write1"), 1))))
 //@   ensures last_chunk_is_what_was_read: implies(count("netty.channel.write1") == 1, at(last("netty.channel.write1"), len(evarg(last("netty.channel.write1"), 1)) >= 1 && seqeq(content(evarg(last("netty.channel.write1"), 1)), subseq(rdata(r), rpos(r) - len(evarg(last("netty.channel.write1"), 1)), len(evarg(last("netty.channel.write1"), 1))))))
+//@   ensures a_failed_chunk_ends_the_call_with_its_error: implies(count("netty.channel.write1") == 1 && evres(last("netty.channel.write1"), 1) != nil, err == evres(last("netty.channel.write1"), 1)) && count("time.Sleep") == 0
 //@   ensures all_read: implies(err == nil, rpos(r) == rend(r))
 //@   ensures counted: implies(err == nil, n == rpos(r) - old(rpos(r)))
 
@@ -1088,6 +1092,17 @@ package netty
 //@ assume iface Pipeline.ServeChannel
 //@   modifies all
 //@   preserves bootstrap.*, bootstrapOptions.*, listener.*, transport.Options.*
+// C05: "active completes before Connect/accept hands the channel out": ServeChannel returns only
+// after the synchronous Pipeline.ServeChannel call, which (for the repository's pipeline) returns
+// only after channel.serveChannel has delivered active
+//@ property C13 C05
+//@ func (*pipeline).ServeChannel
+//@   params p channel
+//@   event
+//@   requires p != nil && channel != nil
+//@   may_panic true
+//@   modifies all
+//@   ensures serves_synchronously: nemitted() >= 1 && evis(nemitted()-1, "Channel.serveChannel") && evrecv(nemitted()-1) == channel && count("Channel.serveChannel") == 1 && count("go ") == 0 && count("Executor.Exec") == 0
 //@ func (*bootstrap).ServeChannel
 //@   params bs ctx transport attachment childChannel
 //@   event
@@ -1099,6 +1114,7 @@ package netty
 //@   ensures holder_first_then_serve: implies(old(bs.bootstrapOptions.holder) != nil, evis(nemitted()-2, "Pipeline.AddFirst") && evrecv(nemitted()-2) == evres(0, 0) && len(evarg(nemitted()-2, 0)) == 1 && at(nemitted()-2, evarg(nemitted()-2, 0)[0] == old(bs.bootstrapOptions.holder)) && count("Pipeline.AddFirst") == 1 && first("ChannelInitializer") < first("Pipeline.AddFirst"))
 //@   ensures served_last: evis(nemitted()-1, "Pipeline.ServeChannel") && evarg(nemitted()-1, 0) == result && count("Pipeline.ServeChannel") == 1
 
+//@ property C13
 // Sync: the accept loop ends only on an accept error; with the (bootstrap-derived) context done
 // the result is the server-closed error; every accepted transport is served once as a child channel.
 //@ func (*listener).Sync
